@@ -8,6 +8,6 @@ CONSTANTS
   NOffer = 2
   NTake = 1
   WithClose = TRUE
-  GuardedClose = TRUE
-INVARIANTS Inv_NoPanic
+  GuardedClose = FALSE
+INVARIANTS Inv_NoLoaderPanic
 CHECK_DEADLOCK FALSE
